@@ -591,3 +591,56 @@ def m_searchsorted(a, v, side="left", **kw):
         if kv is not None:
             return SV(kv, isinstance(v, SV) and v.elem)
     return SV(j, isinstance(v, SV) and v.elem)
+
+
+# =====================================================================================
+# T3: textbook standard log-densities (jax.scipy.stats.*.logpdf) as uninterpreted per-element functions
+LOGPDF = {fam: z3.Function(f"std_logpdf_{fam}", V.R, V.R) for fam in ("norm", "uniform", "cauchy", "laplace", "expon", "logistic")}
+LOGPDF_T = z3.Function("std_logpdf_t", V.R, V.R, V.R)  # (x, df)
+
+
+def _mk_logpdf(fam):
+    def f(x, *a, **k):
+        if a or k:
+            raise Untranslatable(f"{fam}.logpdf with loc/scale arguments")
+        return SV(LOGPDF[fam](to_real(lift(x))), _elem(x), getattr(x, "tags", None))
+    return f
+
+
+for _fam in LOGPDF:
+    ENTRIES[f"jax.scipy.stats.{_fam}.logpdf"] = (_mk_logpdf(_fam), "T3")
+
+
+@entry("jax.scipy.stats.t.logpdf", tier="T3")
+def m_t_logpdf(x, df=None, **k):
+    return SV(LOGPDF_T(to_real(lift(x)), to_real(lift(df))), _elem(x, df), getattr(x, "tags", None))
+
+
+@entry("jax.numpy.shape")
+def m_shape(x):
+    if _is_num(x):
+        return ()
+    return x.shape
+
+
+@entry("jax.numpy.broadcast_shapes")
+def m_broadcast_shapes(*shapes):
+    out = ()
+    for s_ in shapes:
+        if s_ == ():
+            continue
+        if out == () or out is s_ or out == s_:
+            out = s_
+        else:
+            raise Untranslatable("broadcast of different symbolic shapes")
+    return out
+
+
+@entry("jax.numpy.broadcast_arrays")
+def m_broadcast_arrays(*arrs):
+    return list(arrs)
+
+
+@entry("jax.numpy.broadcast_to")
+def m_broadcast_to(a, shape):
+    return a
